@@ -13,6 +13,8 @@
 #include "libdialect/trees.h"
 #include "libdialect/planarise.h"
 #include "libdialect/routing.h"
+#include "libdialect/hola.h"
+#include "libdialect/opts.h"
 #include "libvpsc/assertions.h"
 using namespace dialect;
 
@@ -168,6 +170,7 @@ static int tglfMode(int count, uint64_t seed, const char *outFile)
 }
 
 #include "h_dialect_peel.h"
+#include "h_dialect_hola.h"
 
 int main(int argc, char **argv)
 {
@@ -176,5 +179,6 @@ int main(int argc, char **argv)
     if (m == "sepco") return sepcoMode(argv[2]);
     if (m == "tglf" && argc >= 5) return tglfMode(atoi(argv[2]), strtoull(argv[3], 0, 10), argv[4]);
     if (m == "peel" && argc >= 4) return peelMode(argv[2], argv[3]);
+    if (m == "hola" && argc >= 4) return holaMode(argv[2], argv[3], argc > 4 ? atol(argv[4]) : 0);
     return 2;
 }
